@@ -45,7 +45,11 @@ func withCtx(m M) M {
 // gives the ActivityStreams vocabulary the alias "as" - the one alias form
 // the decoder honours: {"<vocabulary>": "as"} - with every type and member
 // name prefixed, at every depth.
-func aliasDoc(m M) M {
+func aliasDoc(m M) M { return aliasDocWith(m, "as") }
+
+// aliasDocWith is aliasDoc with an alias of the caller's choice (an alias is
+// any string: it may hold a slash).
+func aliasDocWith(m M, alias string) M {
 	var walk func(v interface{}) interface{}
 	walk = func(v interface{}) interface{} {
 		switch x := v.(type) {
@@ -57,12 +61,12 @@ func aliasDoc(m M) M {
 					c[k] = vv
 				case k == "type":
 					if ts, ok := vv.(string); ok && !strings.Contains(ts, ":") {
-						c[k] = "as:" + ts
+						c[k] = alias + ":" + ts
 					} else {
 						c[k] = vv
 					}
 				default:
-					c["as:"+k] = walk(vv)
+					c[alias+":"+k] = walk(vv)
 				}
 			}
 			return c
@@ -76,7 +80,7 @@ func aliasDoc(m M) M {
 		return v
 	}
 	c := M(walk(m).(map[string]interface{}))
-	c["@context"] = M{AS: "as"}
+	c["@context"] = M{AS: alias}
 	return c
 }
 
